@@ -157,7 +157,11 @@ class SWCLike(ABC):
             data.extend(self.comments)
 
         it = to_swc(
-            self.get_ndata, comments=data, extra_cols=extra_cols, id_offset=id_offset
+            self.get_ndata,
+            comments=data,
+            extra_cols=extra_cols,
+            id_offset=id_offset,
+            names=self.names,
         )
 
         if fname is None:
